@@ -159,6 +159,9 @@ def build(spec):
         return F.FunctionCustom(SCALAR_FN[spec["fn"]])
     if c == "FunctionShift":
         t = list(spec["t"])
+        if spec.get("shift_form") == "array":      # a coordinate map written with numpy: returns float ndarrays
+            tarr = np.array(t, dtype=float)
+            return F.FunctionShift(build(spec["inner"]), lambda x, tarr=tarr: np.asarray(x, dtype=float) + tarr)
         return F.FunctionShift(build(spec["inner"]), lambda x, t=t: [x[k] + t[k] for k in range(len(t))])
     if c in ("FunctionUQNormal", "FunctionUQNormal2"):
         return getattr(F, c)(build(spec["inner"]), list(spec["mean"]), list(spec["std"]), list(spec["a"]), list(spec["b"]))
@@ -383,6 +386,8 @@ def _run_history(case, factory):
             arg = p if op[2] == "t" else (list(p) if op[2] == "l" else np.array(p))
             was_cached = p in seen
             got = f(arg)
+            if [float(x) for x in arg] != list(p):
+                out.bad(SUB_H + "/arguments-mutated/single", "%s: the point passed in was modified: %s -> %s" % (tag, p, list(arg)))
             if np.shape(got) != (ol,):
                 out.bad(SUB_H + "/shape/single", "%s: shape %s, expected (%d,)" % (tag, np.shape(got), ol))
             elif differs(np.asarray(got, float), want):
@@ -405,6 +410,9 @@ def _run_history(case, factory):
             if any(p in seen for p in plist):
                 hit_batch += 1
             got = _quiet(f, arg)
+            if len(arg) != len(plist) or any([float(x) for x in q] != list(p) for q, p in zip(arg, plist)):
+                out.bad(SUB_H + "/arguments-mutated/batch", "%s: the batch passed in was modified: %s -> %s"
+                        % (tag, plist, [list(q) for q in arg]))
             if np.shape(got) != (len(plist), ol):
                 out.bad(SUB_H + "/shape/batch%s" % ("-empty" if not plist else ""),
                         "%s: shape %s, expected (%d, %d)" % (tag, np.shape(got), len(plist), ol))
@@ -426,7 +434,10 @@ def _run_history(case, factory):
                 idx = np.array([[j % len(pts) for j in row] for row in op[1]], dtype=int)
             arr = np.array(pts, dtype=float).reshape(len(pts), d)[idx]
             want = np.array(refs)[idx]
+            snapshot = arr.copy()
             got = np.asarray(f.eval_vectorized(arr))
+            if arr.shape != snapshot.shape or not np.array_equal(arr, snapshot):
+                out.bad(SUB_H + "/arguments-mutated/%s" % kind, "%s: eval_vectorized modified the array passed in" % tag)
             if got.size != want.size:
                 out.bad(SUB_H + "/shape/%s" % kind, "%s: %d values for array of shape %s and output length %d"
                         % (tag, got.size, arr.shape, ol))
@@ -470,17 +481,50 @@ def _has_inner_kink(spec, a, b):
     return any(a[k] < v < b[k] for k, ks in enumerate(kinks(spec)) for v in ks)
 
 
+def _box_container(values, form):
+    """the box corner as the container a caller may pass: tuple, list, float ndarray, int ndarray (integral boxes only)"""
+    if form == "tuple":
+        return tuple(values)
+    if form == "iarray" and all(float(v).is_integer() for v in values):
+        return np.array([int(v) for v in values], dtype=int)
+    if form in ("farray", "iarray"):
+        return np.array(values, dtype=float)
+    return list(values)
+
+
+def _form_name(arg):
+    return type(arg).__name__ + (":" + arg.dtype.kind if isinstance(arg, np.ndarray) else "")
+
+
+def _part_names(spec):
+    c = spec["cls"]
+    if c == "FunctionShift":
+        return "FunctionShift(" + _part_names(spec["inner"]) + ")"
+    if c == "FunctionCompose":       # order kept: the position of a part matters for arguments shared between the parts
+        return "FunctionCompose(" + "+".join(_part_names(p[0]) for p in spec["parts"]) + ")"
+    return c
+
+
 def run_integral(case, factory=build, sub=SUB_I, rel_tol=1e-9):
     out = Outcome()
     spec, a, b = case["spec"], [float(x) for x in case["a"]], [float(x) for x in case["b"]]
     cname, d = spec["cls"], spec["d"]
-    label = cname if cname not in ("FunctionShift", "FunctionCompose") else cname + "(" + "+".join(
-        sorted(set([spec["inner"]["cls"]] if cname == "FunctionShift" else [p[0]["cls"] for p in spec["parts"]]))) + ")"
+    label = cname
+    if cname in ("FunctionShift", "FunctionCompose"):      # composite: the set of leaf classes involved
+        leaves = sorted(set(_part_names(spec).replace("(", "+").replace(")", "").split("+")) - {"FunctionShift", "FunctionCompose"})
+        label = cname + "(" + "+".join((["FunctionCompose"] if cname == "FunctionShift" and spec["inner"]["cls"] == "FunctionCompose" else []) + leaves) + ")"
     out.cls(cname, "d=%d" % d)
     f = factory(spec)
+    # a, b are the snapshot of the box: everything below (reference, kinks) uses them, never the objects handed to the library
+    arg_a, arg_b = _box_container(a, case.get("a_form", "list")), _box_container(b, case.get("b_form", "list"))
+    out.cls("box=%s/%s" % (_form_name(arg_a), _form_name(arg_b)))
     with warnings.catch_warnings():
         warnings.simplefilter("ignore")
-        ana = f.getAnalyticSolutionIntegral(list(a), list(b))
+        ana = f.getAnalyticSolutionIntegral(arg_a, arg_b)
+    for name, arg, snap in (("start", arg_a, a), ("end", arg_b, b)):
+        if [float(x) for x in arg] != snap:
+            out.bad(sub + "/arguments-mutated/" + cname, "%s.getAnalyticSolutionIntegral modified its %s argument (%s): %s -> %s"
+                    % (label, name, _form_name(arg), snap, [float(x) for x in arg]))
     if ana is None:
         out.bad(sub + "/returns-none/" + cname, "%s.getAnalyticSolutionIntegral(%s,%s) returned None" % (cname, a, b))
         return out
@@ -549,7 +593,7 @@ TAUS_ALL = [-0.5, 0.0, 0.25, 0.5, 0.6875, 1.0, 1.5]
 TAUS_OUT = [-0.5, 0.0, 1.0, 1.5]
 
 
-def draw_leaf(draw, cls, d, a, b, for_integral=False, parts=1, composite=False):
+def draw_leaf(draw, cls, d, a, b, for_integral=False, parts=1):
     """parameters of a leaf class, scaled to the box [a,b] (coefficient*width in [0.25, RMAX])"""
     h = [b[k] - a[k] for k in range(d)]
     rmax = RMAX[d]
@@ -592,8 +636,6 @@ def draw_leaf(draw, cls, d, a, b, for_integral=False, parts=1, composite=False):
         zero = draw(st.sampled_from(["none", "none", "some", "some", "all"]))
         mask = draw(st.integers(1, 2 ** d - 2)) if (zero == "some" and d >= 2) else (2 ** d - 1 if zero == "all" else 0)
         s["coeffs"] = [0.0 if (mask >> k) & 1 else coef(k) for k in range(d)]
-        if for_integral and composite and not any(s["coeffs"]):
-            s["coeffs"][0] = coef(0)     # the all-zero deviation (F-C12g) is reported on the leaf class only
         s["offset"] = draw(_nice(-1.0, 1.0))
     elif cls in ("GenzDiscontinious", "GenzDiscontinious2"):
         s["coeffs"] = [coef(k) for k in range(d)]
@@ -765,13 +807,18 @@ def integral_strategy(tier):
                                                  "Polynomial1d", "LambdaFunction", "FunctionExpVar"]
         cls = draw(st.sampled_from(names))
         d = 1 if cls in ("Polynomial1d", "LambdaFunction") else draw(st.integers(1, 4))
+        forms = st.sampled_from(["tuple", "list", "farray", "farray", "iarray"])
         if cls in UNIT_BOX_ONLY:
-            return dict(spec=dict(cls=cls, d=d), a=[0.0] * d, b=[1.0] * d)
-        if cls in ("FunctionShift", "FunctionCompose"):
-            n_inner = 1 if cls == "FunctionShift" else draw(st.integers(1, 3 if d <= 2 else 2))
-            # FunctionMultilinear is kept out of composites for d>=2 (its own deviation is reported as a leaf finding)
-            pool = [c for c in ANALYTIC_INNER if not (c == "FunctionMultilinear" and d >= 2)]
-            inner_cls = [draw(st.sampled_from(pool)) for _ in range(n_inner)]
+            return dict(spec=dict(cls=cls, d=d), a=[0.0] * d, b=[1.0] * d, a_form=draw(forms), b_form=draw(forms))
+        wrap = cls == "FunctionShift"
+        compose = cls == "FunctionCompose" or (wrap and draw(st.booleans()))     # FunctionShift around a composition
+        if compose:
+            n_inner = draw(st.integers(2, 3)) if d <= 2 else 2
+            inner_cls = [draw(st.sampled_from(ANALYTIC_INNER)) for _ in range(n_inner)]
+            if draw(st.booleans()):       # a discontinuous / kinked function listed before the others (drawn order is kept)
+                inner_cls[0] = draw(st.sampled_from(["GenzDiscontinious", "GenzDiscontinious", "GenzC0"]))
+        elif wrap:
+            inner_cls = [draw(st.sampled_from(ANALYTIC_INNER))]
         else:
             inner_cls = [cls]
         kind = max((LEAF[c][0] for c in inner_cls), key=lambda k: _ORDER[k])
@@ -779,17 +826,15 @@ def integral_strategy(tier):
             a, b = _expvar_box(draw, d)
         else:
             a, b = _draw_box(draw, d, kind)
-        inner = [draw_leaf(draw, c, d, a, b, for_integral=True, parts=len(inner_cls), composite=cls != c)
-                 for c in inner_cls]
-        if cls == "FunctionShift":
+        inner = [draw_leaf(draw, c, d, a, b, for_integral=True, parts=len(inner_cls)) for c in inner_cls]
+        spec = inner[0]
+        if compose:
+            spec = dict(cls="FunctionCompose", d=d, parts=[[sp, draw(st.sampled_from([1.0, -1.0, 0.5, 2.5]))] for sp in inner])
+        if wrap:
             t = [draw(st.sampled_from([0.0, 0.25, -0.5, 1.0])) for _ in range(d)]
-            spec = dict(cls=cls, d=d, inner=inner[0], t=t)
+            spec = dict(cls=cls, d=d, inner=spec, t=t, shift_form=draw(st.sampled_from(["list", "array"])))
             a, b = [a[k] - t[k] for k in range(d)], [b[k] - t[k] for k in range(d)]
-        elif cls == "FunctionCompose":
-            spec = dict(cls=cls, d=d, parts=[[sp, draw(st.sampled_from([1.0, -1.0, 0.5, 2.5]))] for sp in inner])
-        else:
-            spec = inner[0]
-        return dict(spec=spec, a=a, b=b)
+        return dict(spec=spec, a=a, b=b, a_form=draw(forms), b_form=draw(forms))
     return s()
 
 
